@@ -20,7 +20,7 @@ func init() {
 	})
 	register("C05", &propDef{
 		Title: "Pack never leaks outside content and always emits a slug Unpack accepts",
-		Rules: []func(*Checker){ruleC05Link, ruleC05Deref, rulePredSound("C05.pred"), ruleC05Pos, ruleC04Accept2("C05.accept"), rulePackerWriters("C05.allowlist"), ruleAllowBase("C05.allowbase"), ruleC04Relative("C05.relative"),
+		Rules: []func(*Checker){ruleC05Link, ruleC05Deref, ruleDerefHeader("C05.derefheader"), ruleC05Resolve("C05.resolve"), rulePredSound("C05.pred"), ruleC05Pos, ruleC04Accept2("C05.accept"), rulePackerWriters("C05.allowlist"), ruleAllowBase("C05.allowbase"), ruleC04Relative("C05.relative"),
 			aliasRuleFiltered(ruleC16Readlink, "C16.readlink", "C05.chain", 1, func(o Oblig) bool { return !strings.Contains(o.Key, "(*slug.Packer).Pack/") })},
 		NotDecided: []string{
 			"content equality of dereferenced copies",
@@ -379,6 +379,20 @@ func ruleC04Accept2(id string) func(*Checker) {
 			}
 			// the root it is compared with must be lexically clean too (Abs/Clean/EvalSymlinks result)
 			if est.Root != nil {
+				// a root taken from the root parameter is made absolute (filepath.Abs), not merely cleaned or
+				// resolved: the target it is compared with is absolute
+				fromParam, viaAbs := false, false
+				for v := range p.backSlice(est.Root, 0) {
+					if prm, ok := v.(*ssa.Parameter); ok && prm.Parent() == g && isStringType(prm.Type()) && len(g.Params) > 0 && prm != g.Params[len(g.Params)-1] {
+						fromParam = true
+					}
+					if cl, ok := v.(*ssa.Call); ok && isFunc(calleeObj(cl), "path/filepath", "Abs") {
+						viaAbs = true
+					}
+				}
+				if fromParam {
+					c.check(viaAbs, id, gname, fmt.Sprintf("return true %d root is absolute", i), p.Pos(r.Pos()), "the root operand passes through filepath.Abs", "the root the absolute target is compared with is not made absolute (filepath.Abs replaced or dropped): with a relative destination such as \".\" every in-tree link looks external, and a slug Pack produced is refused")
+				}
 				rootClean := cleanRoot(est.Root, map[ssa.Value]bool{})
 				c.check(rootClean, id, gname, fmt.Sprintf("return true %d root is clean", i), p.Pos(r.Pos()), "the root operand is the result of filepath.Abs / Clean (plus separator)", "the cleaned target is compared with a root that is not lexically clean on every path (e.g. Abs skipped for absolute roots): '/a/./tree' or '/a//tree' make every in-tree link look external")
 			}
@@ -1211,5 +1225,312 @@ func ruleC04Relative(id string) func(*Checker) {
 			c.check(ok, id, p.FuncName(g), fmt.Sprintf("return true %d: relative targets judged from the root", i), p.Pos(r.Pos()), "reached only with an absolute target or past a test of the path from the root for \"..\"", "a relative target is accepted on the cleaned absolute path alone: ../../<name of root>/file leaves the root and comes back in by name — Pack keeps the link, Unpack into any other directory refuses it (or, at Unpack, it leads elsewhere when dst is reached through a link)")
 		}
 		c.check(n > 0, id, p.FuncName(g), "in-root acceptance", p.Pos(g.Pos()), fmt.Sprintf("%d accepting return(s) rooted at the root parameter", n), "no accepting return is rooted at the root parameter")
+	}
+}
+
+// C05.derefheader — a dereferenced link is stored with its target's metadata.
+func ruleDerefHeader(id string) func(*Checker) {
+	return func(c *Checker) {
+		c.rule(id, "Where the pack walk turns an out-of-tree link into a copy of its target, the entry's header takes all of the target's metadata: in the block that sets the header's Size from a FileInfo other than the walked entry's own, the header's ModTime and Mode are set from that same FileInfo and the Typeflag to the regular-file constant. A header left with the link's own values ships the copy with permission bits 0777 and the link's timestamp.", 2)
+		p := c.P
+		pc := getPackCtx(c, id)
+		if pc == nil {
+			return
+		}
+		n := 0
+		for _, w := range pc.Walks {
+			fn := w.Fn
+			var infoParam *ssa.Parameter
+			for _, prm := range fn.Params {
+				if nmd, ok := types.Unalias(prm.Type()).(*types.Named); ok && nmd.Obj().Name() == "FileInfo" {
+					infoParam = prm
+				}
+			}
+			// header field stores whose value comes from another FileInfo
+			type hs struct {
+				st  *ssa.Store
+				src ssa.Value
+			}
+			byField := map[string][]hs{}
+			eachInstr(fn, func(in ssa.Instruction) {
+				st, ok := in.(*ssa.Store)
+				if !ok {
+					return
+				}
+				fa, ok := st.Addr.(*ssa.FieldAddr)
+				if !ok || !isNamedT(derefType(fa.X.Type()), "Header") || fieldOf(fa) == nil {
+					return
+				}
+				var src ssa.Value
+				for v := range p.backSlice(st.Val, 0) {
+					if cl, ok := v.(*ssa.Call); ok && cl.Call.IsInvoke() {
+						if nmd, ok := types.Unalias(cl.Call.Value.Type()).(*types.Named); ok && nmd.Obj().Name() == "FileInfo" && canon(cl.Call.Value) != ssa.Value(infoParam) {
+							src = canon(cl.Call.Value)
+						}
+					}
+				}
+				byField[fieldOf(fa).Name()] = append(byField[fieldOf(fa).Name()], hs{st, src})
+			})
+			for _, sz := range byField["Size"] {
+				if sz.src == nil {
+					continue
+				}
+				n++
+				var missing []string
+				for _, f := range []string{"ModTime", "Mode"} {
+					found := false
+					for _, x := range byField[f] {
+						if x.src != nil && sameLoc(x.src, sz.src) || (x.src != nil && x.src == sz.src) {
+							if x.st.Block() == sz.st.Block() || x.st.Block().Dominates(sz.st.Block()) || sz.st.Block().Dominates(x.st.Block()) {
+								found = true
+							}
+						}
+					}
+					if !found {
+						missing = append(missing, f)
+					}
+				}
+				tf := false
+				for _, x := range byField["Typeflag"] {
+					if k, isC := constInt(x.st.Val); isC && k == '0' && (x.st.Block() == sz.st.Block() || x.st.Block().Dominates(sz.st.Block()) || sz.st.Block().Dominates(x.st.Block())) {
+						tf = true
+					}
+				}
+				if !tf {
+					missing = append(missing, "Typeflag")
+				}
+				c.check(len(missing) == 0, id, p.FuncName(fn), fmt.Sprintf("dereferenced entry %d takes the target's metadata", n), p.Pos(sz.st.Pos()), "Typeflag, ModTime, Mode and Size all set from the resolved target", "the header of a dereferenced link keeps the link's own "+strings.Join(missing, ", ")+" (not set from the resolved target where its Size is): the copy is shipped with the link's permission bits (0777) / timestamp / type")
+			}
+		}
+		c.check(n > 0, id, "-", "dereference site", "-", fmt.Sprintf("%d site(s) setting the header's Size from a resolved target", n), "no place sets an entry's Size from a resolved link target: dereferenced links are no longer stored as copies")
+	}
+}
+
+// C05.resolve — following a chain of out-of-tree links one hop at a time.
+func ruleC05Resolve(id string) func(*Checker) {
+	return func(c *Checker) {
+		c.rule(id, "The function that resolves an out-of-tree link for dereferencing (it reads the link and calls itself for the next hop) describes the resolved path with os.Lstat of that very path — not Stat, which follows the rest of the chain while the path returned stays the intermediate link, and filepath.Walk does not descend into a link; when that Lstat says 'symlink' it calls itself with the same root, the resolved path as the new link, and its hop counter plus one; what it returns otherwise is reached only on the not-a-symlink edge; and the hop counter is compared with a constant limit, the over-limit edge returning an error. (A loop-shaped resolver is not matched by this rule; C05.chain covers the target's base directory in either shape.)", 0)
+		p := c.P
+		for _, fn := range p.Funcs {
+			if fn.Package() == nil || fn.Package().Pkg.Path() != p.PkgPath("slug") || fn.Parent() != nil {
+				continue
+			}
+			var self []*ssa.Call
+			readsLink := false
+			for _, ci := range callsIn(fn) {
+				if cl, ok := ci.(*ssa.Call); ok && cl.Common().StaticCallee() == fn {
+					self = append(self, cl)
+				}
+				if isFunc(calleeObj(ci), "os", "Readlink") {
+					readsLink = true
+				}
+			}
+			if !readsLink {
+				continue
+			}
+			name := p.FuncName(fn)
+			if len(self) == 0 {
+				// not recursive: a resolver proper (it reads its own parameter as a link and examines the result)
+				// must then follow chains in a loop
+				ownParam := false
+				for _, ci := range callsTo(fn, func(o *types.Func) bool { return isFunc(o, "os", "Readlink") }) {
+					if _, ok := canon(ci.Common().Args[0]).(*ssa.Parameter); ok && !inLoop(ci.Block()) {
+						ownParam = true
+					}
+				}
+				examines := len(callsTo(fn, func(o *types.Func) bool { return isFunc(o, "os", "Lstat") || isFunc(o, "os", "Stat") })) > 0
+				hasInt := false
+				for _, prm := range fn.Params {
+					if b, ok := prm.Type().Underlying().(*types.Basic); ok && b.Kind() == types.Int {
+						hasInt = true
+					}
+				}
+				if ownParam && examines && hasInt {
+					c.fail(id, name, "chains are followed", p.Pos(fn.Pos()), "the resolver reads one link and never goes on to the next hop (no call of itself, no loop): a link to a link is stored with the intermediate link's info and dropped from the slug")
+				}
+				continue
+			}
+			// parameter roles: the int is the hop counter; the string handed to Readlink is the link; the other string the root
+			var hops, link, root *ssa.Parameter
+			for _, prm := range fn.Params {
+				if b, ok := prm.Type().Underlying().(*types.Basic); ok && b.Kind() == types.Int {
+					hops = prm
+				}
+			}
+			for _, ci := range callsTo(fn, func(o *types.Func) bool { return isFunc(o, "os", "Readlink") }) {
+				if prm, ok := canon(ci.Common().Args[0]).(*ssa.Parameter); ok {
+					link = prm
+				}
+			}
+			for _, prm := range fn.Params {
+				if isStringType(prm.Type()) && prm != link {
+					root = prm
+				}
+			}
+			if hops == nil || link == nil {
+				c.fail(id, name, "shape", p.Pos(fn.Pos()), "the resolver has no hop counter / does not read its own link parameter")
+				continue
+			}
+			// the description of the resolved path
+			var lst *ssa.Call
+			for _, ci := range callsIn(fn) {
+				if cl, ok := ci.(*ssa.Call); ok && (isFunc(calleeObj(cl), "os", "Lstat") || isFunc(calleeObj(cl), "os", "Stat")) {
+					lst = cl
+				}
+			}
+			if lst == nil {
+				c.fail(id, name, "resolved path described", p.Pos(fn.Pos()), "the resolved path is never examined")
+				continue
+			}
+			c.check(isFunc(calleeObj(lst), "os", "Lstat"), id, name, "resolved path described with Lstat", p.Pos(lst.Pos()), "os.Lstat", "the resolved path is examined with os.Stat, which follows the rest of the chain: the FileInfo describes the chain's end while the path returned is still a link — a link reaching a directory through a second link is dereferenced to nothing")
+			info := extractOf(lst, 0)
+			isLink, notLink := symlinkEdges(fn, info)
+			for i, cl := range self {
+				okG := len(isLink) > 0 && guarded(cl.Block(), isLink)
+				c.check(okG, id, name, fmt.Sprintf("next hop %d taken when the resolved path is a link", i), p.Pos(cl.Pos()), "the self-call sits on the is-a-symlink edge", "the resolver does not call itself on the edge where the resolved path is found to be a link")
+				okA, why := true, ""
+				for ai, a := range cl.Call.Args {
+					if ai >= len(fn.Params) {
+						break
+					}
+					switch fn.Params[ai] {
+					case root:
+						if canon(a) != ssa.Value(root) {
+							okA, why = false, "the root argument is not the root"
+						}
+					case link:
+						if !sameLoc(a, lst.Call.Args[0]) && canon(a) != canon(lst.Call.Args[0]) {
+							okA, why = false, "the link argument is not the path that was just examined"
+						}
+					case hops:
+						bo, isB := a.(*ssa.BinOp)
+						k := int64(0)
+						if isB {
+							k, _ = constInt(bo.Y)
+						}
+						if !isB || bo.Op != token.ADD || bo.X != ssa.Value(hops) || k != 1 {
+							okA, why = false, "the hop counter is not passed on plus one"
+						}
+					}
+				}
+				c.check(okA, id, name, fmt.Sprintf("next hop %d arguments", i), p.Pos(cl.Pos()), "(root, resolved path, hops+1) in the callee's parameter order", "the next hop is resolved with the wrong arguments ("+why+"): a chain of two links fails or resolves from the wrong place")
+			}
+			c.check(len(isLink) > 0, id, name, "chains are followed", p.Pos(lst.Pos()), "the Lstat result is tested for ModeSymlink", "the resolved path is never tested for being a link itself: a link to a link is stored with the intermediate link's info and dropped from the slug")
+			for i, r := range successReturns(fn) {
+				if cl := callOf(canon(r.Results[0])); cl != nil && cl.Common().StaticCallee() == fn {
+					continue
+				}
+				direct := false
+				for _, v := range returnValues(r, 0) {
+					if v != nil {
+						if ex, ok := canon(v).(*ssa.Extract); ok {
+							if cl, ok := ex.Tuple.(*ssa.Call); ok && cl.Common().StaticCallee() == fn {
+								direct = true
+							}
+						}
+					}
+				}
+				if direct {
+					continue
+				}
+				c.check(len(notLink) > 0 && guarded(r.Block(), notLink), id, name, fmt.Sprintf("result %d only for a path that is not a link", i), p.Pos(r.Pos()), "past the not-a-symlink edge", "a resolved path that is itself a link can be returned as the result")
+			}
+			// the hop limit
+			limT, _ := condEdges(fn, func(v ssa.Value) bool {
+				bo, ok := v.(*ssa.BinOp)
+				if !ok || (bo.Op != token.GEQ && bo.Op != token.GTR) || bo.X != ssa.Value(hops) {
+					return false
+				}
+				_, isC := constInt(bo.Y)
+				return isC
+			})
+			okLim := false
+			for _, e := range limT {
+				if rej, _ := returnsNonNilErrorFrom(e.To()); rej {
+					okLim = true
+				}
+			}
+			c.check(okLim, id, name, "hop limit", p.Pos(fn.Pos()), "hops >= constant leads to an error return", "the hop counter is never compared with a limit (or the over-limit edge does not fail): links pointing at each other make Pack recurse until the stack is exhausted")
+		}
+	}
+}
+
+// C19.hops — the loop in Pack that follows a symlinked source is bounded.
+func ruleRootHops(id string) func(*Checker) {
+	return func(c *Checker) {
+		c.rule(id, "Every loop of the slug package whose body reads a link (os.Readlink) carries an integer that is incremented on every way round and compared with a constant inside the loop, the over-limit edge leaving the loop for an error return: a source that is a cycle of links otherwise keeps Pack in the loop forever.", 1)
+		p := c.P
+		n := 0
+		for _, fn := range p.Funcs {
+			if fn.Package() == nil || fn.Package().Pkg.Path() != p.PkgPath("slug") {
+				continue
+			}
+			for _, ci := range callsTo(fn, func(o *types.Func) bool { return isFunc(o, "os", "Readlink") }) {
+				b := ci.Block()
+				if !inLoop(b) {
+					continue
+				}
+				n++
+				head := loopHeadOf(b)
+				body := map[*ssa.BasicBlock]bool{head: true}
+				for x := range reachFromBlock(head) {
+					if reaches(x, head) {
+						body[x] = true
+					}
+				}
+				bounded := false
+				for _, in := range head.Instrs {
+					ph, ok := in.(*ssa.Phi)
+					if !ok {
+						continue
+					}
+					if bt, ok := ph.Type().Underlying().(*types.Basic); !ok || bt.Kind() != types.Int {
+						continue
+					}
+					// incremented on every back edge
+					inc := true
+					nBack := 0
+					for i, e := range ph.Edges {
+						if !body[head.Preds[i]] {
+							continue
+						}
+						nBack++
+						bo, ok := e.(*ssa.BinOp)
+						k := int64(0)
+						if ok {
+							k, _ = constInt(bo.Y)
+						}
+						if !ok || bo.Op != token.ADD || bo.X != ssa.Value(ph) || k < 1 {
+							inc = false
+						}
+					}
+					if !inc || nBack == 0 {
+						continue
+					}
+					for x := range body {
+						ifi, ok := x.Instrs[len(x.Instrs)-1].(*ssa.If)
+						if !ok {
+							continue
+						}
+						cnd, neg := stripNot(ifi.Cond)
+						bo, ok := cnd.(*ssa.BinOp)
+						if !ok || bo.X != ssa.Value(ph) || (bo.Op != token.GEQ && bo.Op != token.GTR) {
+							continue
+						}
+						if _, isC := constInt(bo.Y); !isC {
+							continue
+						}
+						succ := 0
+						if neg {
+							succ = 1
+						}
+						if rej, _ := returnsNonNilErrorFrom(x.Succs[succ]); rej && !body[x.Succs[succ]] {
+							bounded = true
+						}
+					}
+				}
+				c.check(bounded, id, p.FuncName(fn), fmt.Sprintf("link-following loop %d is bounded", n), p.Pos(ci.Pos()), "a counter incremented every time round and compared with a constant, the over-limit edge returning an error", "the loop that follows a chain of links has no counter that is incremented on every way round and checked against a limit: a source directory that is a cycle of links (a -> b -> a) keeps Pack here forever")
+			}
+		}
 	}
 }
